@@ -442,6 +442,44 @@ func checkC08Apply(p *Prog, r *Result) {
 		why = ""
 		conv, applied := false, false
 		var convObj types.Object
+		// the NodeResource built from the element: every usage field from the workload's own field
+		checkLit := func(e ast.Expr) bool {
+			e = unparen(e)
+			if u, ok := e.(*ast.UnaryExpr); ok {
+				e = unparen(u.X)
+			}
+			lit, ok := e.(*ast.CompositeLit)
+			if !ok || !strings.HasSuffix(F.typeOf(lit).String(), "NodeResource") {
+				return false
+			}
+			got := map[string]string{}
+			for _, el := range lit.Elts {
+				if kv, ok := el.(*ast.KeyValueExpr); ok {
+					if sel, ok := unparen(kv.Value).(*ast.SelectorExpr); ok && F.objOf(sel.X) == elem {
+						got[exprStr(kv.Key)] = sel.Sel.Name
+					} else {
+						got[exprStr(kv.Key)] = "?" + exprStr(kv.Value)
+					}
+				}
+			}
+			for k, v := range want {
+				if got[k] != v {
+					why = fmt.Sprintf("usage field %s is taken from %q, not from the workload's %s", k, got[k], v)
+				}
+			}
+			return true
+		}
+		// `if incr { resp.Add(x) } else { resp.Sub(x) }` with x the given object, in fn (the function or a local closure)
+		dirSwitch := func(fn *FuncNode, s *ast.IfStmt, x types.Object) bool {
+			if fn.objOf(s.Cond) == incr && s.Init == nil && s.Else != nil && len(s.Body.List) == 1 {
+				if eb, ok := s.Else.(*ast.BlockStmt); ok && len(eb.List) == 1 {
+					m1, a1 := methodCallOn(fn, s.Body.List[0])
+					m2, a2 := methodCallOn(fn, eb.List[0])
+					return m1 == "Add" && m2 == "Sub" && a1 != nil && a1 == a2 && a1 == x
+				}
+			}
+			return false
+		}
 		for _, st := range rs.Body.List {
 			switch s := st.(type) {
 			case *ast.AssignStmt:
@@ -449,47 +487,36 @@ func checkC08Apply(p *Prog, r *Result) {
 					why = "unexpected assignment in the loop"
 					continue
 				}
-				e := unparen(s.Rhs[0])
-				if u, ok := e.(*ast.UnaryExpr); ok {
-					e = unparen(u.X)
-				}
-				lit, ok := e.(*ast.CompositeLit)
-				if !ok || !strings.HasSuffix(F.typeOf(lit).String(), "NodeResource") {
+				if !checkLit(s.Rhs[0]) {
 					why = "unexpected assignment in the loop: " + exprStr(s.Lhs[0])
 					continue
-				}
-				got := map[string]string{}
-				for _, el := range lit.Elts {
-					if kv, ok := el.(*ast.KeyValueExpr); ok {
-						if sel, ok := unparen(kv.Value).(*ast.SelectorExpr); ok && F.objOf(sel.X) == elem {
-							got[exprStr(kv.Key)] = sel.Sel.Name
-						} else {
-							got[exprStr(kv.Key)] = "?" + exprStr(kv.Value)
-						}
-					}
-				}
-				for k, v := range want {
-					if got[k] != v {
-						why = fmt.Sprintf("usage field %s is taken from %q, not from the workload's %s", k, got[k], v)
-					}
 				}
 				conv, convObj = true, F.objOf(s.Lhs[0])
 			case *ast.IfStmt:
 				// if incr { resp.Add(x) } else { resp.Sub(x) }
+				if dirSwitch(F, s, convObj) && convObj != nil {
+					applied = true
+				} else {
+					why = "the loop contains a condition other than the direction switch `if incr {Add} else {Sub}` (" + exprStr(s.Cond) + "): some workload resources or deltas are skipped, so usage drifts from the sum of the workloads (a bind-only delta has zero CPU and memory request but non-empty per-core pieces)"
+				}
+			case *ast.ExprStmt:
+				// apply(x) with apply a local closure whose whole body is the direction switch on its parameter
 				good := false
-				if F.objOf(s.Cond) == incr && s.Init == nil && s.Else != nil && len(s.Body.List) == 1 {
-					if eb, ok := s.Else.(*ast.BlockStmt); ok && len(eb.List) == 1 {
-						m1, a1 := methodCallOn(F, s.Body.List[0])
-						m2, a2 := methodCallOn(F, eb.List[0])
-						if m1 == "Add" && m2 == "Sub" && a1 != nil && a1 == a2 && a1 == convObj {
-							good = true
+				if c, ok := unparen(s.X).(*ast.CallExpr); ok && len(c.Args) == 1 {
+					if t, ok := p.resolveFuncArg(F, c.Fun); ok && t != nil && t.Lit != nil && t.Body != nil && len(t.Body.List) == 1 {
+						if is, ok := t.Body.List[0].(*ast.IfStmt); ok && t.paramObj(0) != nil && dirSwitch(t, is, t.paramObj(0)) {
+							if o := F.objOf(c.Args[0]); o != nil && o == convObj {
+								good = true
+							} else if checkLit(c.Args[0]) {
+								good, conv = true, true
+							}
 						}
 					}
 				}
 				if good {
 					applied = true
 				} else {
-					why = "the loop contains a condition other than the direction switch `if incr {Add} else {Sub}` (" + exprStr(s.Cond) + "): some workload resources or deltas are skipped, so usage drifts from the sum of the workloads (a bind-only delta has zero CPU and memory request but non-empty per-core pieces)"
+					why = "unexpected call in the loop over the workload resources: " + exprStr(s.X)
 				}
 			default:
 				why = fmt.Sprintf("unexpected %T in the loop over the workload resources", st)
